@@ -101,6 +101,7 @@ def intSem : Sem Int :=
       | "mul", [a, b] => a * b
       | "move", [a] => a
       | "select", [c, a, b] => if c != 0 then a else b
+      | "seqz", [a] => if a = 0 then 1 else 0
       | "slt", [a, b] => if a < b then 1 else 0
       | "sgt", [a, b] => if a > b then 1 else 0
       | "sle", [a, b] => if a ≤ b then 1 else 0
@@ -124,7 +125,7 @@ def intCfg : PV.Flatten.Cfg Int :=
   { zero := 0, negV := fun v => -v, isOne := fun v => v == 1, isNeg := fun v => v < 0, ofNat := fun n => (n : Int) }
 
 theorem intSemOk : SemOk intSem intCfg := by
-  refine ⟨rfl, fun v => by simp [intSem, intCfg], fun v => rfl, fun v h => ?_, ?_, fun v => by show (v != 0) = decide (v ≠ 0); by_cases h : v = 0 <;> simp [h], fun c a b => rfl⟩
+  refine ⟨rfl, fun v => by simp [intSem, intCfg], fun v => rfl, fun v h => ?_, ?_, fun v => by show (v != 0) = decide (v ≠ 0); by_cases h : v = 0 <;> simp [h], fun c a b => rfl, fun v => by show ((if v = 0 then (1 : Int) else 0) != 0) = decide (v = 0); by_cases h : v = 0 <;> simp [h]⟩
   · simp only [intCfg, beq_iff_eq] at h
     subst h; rfl
   · intro op c neg hc hb a b
